@@ -59,7 +59,11 @@ func c17Versions(r *RNG) []c17Version {
 			nfk-- // this version does not mention the last function: it keeps its code
 		}
 		for i := 0; i < nfk; i++ {
-			name := fmt.Sprintf("F%d", i)
+			// (every other name extends the one before it: F0, F0ab, F1, F1ab - recompiling F0 leaves F0ab alone)
+			name := fmt.Sprintf("F%d", i/2)
+			if i%2 == 1 {
+				name += "ab"
+			}
 			tag := fmt.Sprintf("%s@%d", name, k)
 			if old, ok := prev[name]; ok && r.Intn(3) == 0 {
 				tag = old // body unchanged in this version
